@@ -693,7 +693,14 @@ func (w *World) point() {
 
 // RunOnce executes body once under the scheduler, replaying prefix and then taking the
 // default alternative at every later choice point.
+// Epoch counts executions: shims that keep state across calls (sync.Pool) drop it when the
+// epoch changes, so that no object of an earlier execution leaks into the next one.
+func Epoch() uint64 { return epochCtr }
+
+var epochCtr uint64
+
 func RunOnce(prefix []int, sigs []uint64, horizon int, trace bool, body func()) *Result {
+	epochCtr++
 	w := newWorld(prefix, sigs, horizon, trace)
 	W = w
 	t0 := w.spawn(nil, "main", body)
